@@ -899,8 +899,90 @@ fn degree_ops(tier: Tier, emit: &mut dyn FnMut(String)) {
     }
 }
 
+/// one main transition constraint of degree `dm` and one auxiliary transition constraint of degree
+/// `da` (a running product over `(c_0 + r_0)^(da-1)`): each segment's blowup estimate
+/// `next_power_of_two(degree - 1)` is chosen independently
+fn class_desc(n: usize, dm: u32, da: u32) -> AirDesc {
+    let rule = Expr::add(Expr::pow(Expr::Cur(0), dm), Expr::Const(3));
+    let c = Expr::sub(Expr::Nxt(0), rule.clone());
+    let constraints = vec![Constraint { degree: c.degree(&[], n), expr: c }];
+    let cols = vec![ColGen::Step { init: None, expr: rule }, ColGen::Rand];
+    let assertions = vec![AssertDesc::single(0, 0), AssertDesc::single(1, 2)];
+    let mut d = AirDesc { width: 2, trace_len: n, exemptions: 1, tail_junk: false, periodic: vec![], cols, constraints, assertions, aux: None };
+    let step = Expr::mul(Expr::AuxCur(0), Expr::pow(Expr::add(Expr::Cur(0), Expr::Rand(0)), da - 1));
+    let c = Expr::sub(Expr::AuxNxt(0), step.clone());
+    let acons = vec![Constraint { degree: c.degree(&[], n), expr: c }];
+    let acols = vec![AuxGen::Acc { init: Expr::Const(1), step }];
+    let aasserts = vec![AuxAssertDesc { a: AssertDesc::single(0, 0), value: Expr::Const(1) }];
+    d.aux = Some(AuxDesc { width: 1, num_rands: 1, lagrange: false, cols: acols, constraints: acons, assertions: aasserts });
+    d
+}
+
+/// short traces with high declared degrees, end to end: `min_blowup_factor = next_power_of_two(d - 1)`
+/// is twice what the degree needs when (d-1)(n-1) <= n*next_power_of_two(d-1)/2 (d - 1 not a power of
+/// two: d = 10 over 8 rows, d = 18 over 8 and 16 rows, d = 19 over 8 rows), so the constraint
+/// evaluation domain is larger than the highest degree requires (the debug-build prover demanded
+/// equality and panicked on these valid runs: repaired by 21f82da).  The degree sits on the main
+/// segment (also in a single-segment description), on the auxiliary segment and on both, in every
+/// blowup class 2..32 against every other class (aux above, equal to, below main); the neighbouring
+/// degrees run too.  LDE blowup = the constraint-evaluation blowup and twice it.
+fn short_trace_degree_ops(tier: Tier, emit: &mut dyn FnMut(String)) {
+    let mut both = |d: &AirDesc, field: FieldId, o: &OptSpec, seed: u64, emit: &mut dyn FnMut(String)| {
+        emit(run_line(field, HashId::Blake3_256, o, seed, d));
+        emit(glue_line(d, o));
+    };
+    let opts = |n: usize, b: usize, k: usize, field: FieldId| -> OptSpec {
+        let exts: Vec<u8> = (1..=3u8).filter(|x| field.supports_ext(*x)).collect();
+        let o = OptSpec::new(4, b, 0, if b >= 32 { 1 } else { exts[k % exts.len()] }, [2usize, 4, 8][k % 3], [1usize, 0, 3][k % 3]);
+        if fri_well_formed(n * o.blowup, o.blowup, o.folding, o.remainder) { o } else { OptSpec { folding: 2, remainder: 0, ..o } }
+    };
+    let mut k = 0usize;
+    for (d, ns) in [(10u32, &[8usize][..]), (11, &[8]), (13, &[8]), (16, &[8]), (18, &[8, 16]), (19, &[8, 16]), (20, &[8]), (25, &[8, 16]), (32, &[8, 16])] {
+        for n in ns.iter().copied() {
+            let rounds_up = ((d - 1) as usize) * (n - 1) <= n * ((d - 1) as usize).next_power_of_two() / 2;
+            if !(rounds_up || tier == Tier::Thorough || k % 2 == 0) {
+                k += 1;
+                continue;
+            }
+            let field = FieldId::ALL[k % 3];
+            // single segment
+            let p = power_desc(n, d, 1, 0);
+            both(&p, field, &opts(n, p.min_blowup(), k, field), 90, emit);
+            // main / aux / both
+            for (dm, da) in [(d, 2u32), (2, d), (d, d)] {
+                let desc = class_desc(n, dm, da);
+                let ceb = desc.min_blowup();
+                both(&desc, field, &opts(n, ceb, k, field), 91, emit);
+                if rounds_up && ceb <= 16 {
+                    both(&desc, FieldId::ALL[(k + 1) % 3], &opts(n, ceb * 2, k + 1, FieldId::ALL[(k + 1) % 3]), 92, emit);
+                }
+                k += 1;
+            }
+        }
+    }
+    // every ordered pair of blowup classes 2..16 (degrees on the class edges), 8 and 16 rows
+    let classes: [(u32, u32); 4] = [(2, 3), (4, 5), (6, 9), (10, 17)];
+    let mut i = 0usize;
+    for (mlo, mhi) in classes {
+        for (alo, ahi) in classes {
+            let n = if i % 2 == 0 { 8 } else { 16 };
+            let (dm, da) = match i % 4 {
+                0 => (mlo, alo),
+                1 => (mhi, ahi),
+                2 => (mlo, ahi),
+                _ => (mhi, alo),
+            };
+            let desc = class_desc(n, dm, da);
+            let field = FieldId::ALL[i % 3];
+            both(&desc, field, &opts(n, desc.min_blowup(), i, field), 93, emit);
+            i += 1;
+        }
+    }
+}
+
 fn hardening_ops(tier: Tier, emit: &mut dyn FnMut(String)) {
     degree_ops(tier, emit);
+    short_trace_degree_ops(tier, emit);
     let mut both = |d: &AirDesc, field: FieldId, hash: HashId, o: &OptSpec, seed: u64, emit: &mut dyn FnMut(String)| {
         emit(run_line(field, hash, o, seed, d));
         emit(glue_line(d, o));
